@@ -8,7 +8,7 @@ from vlib import log
 
 KEEP = {"reset", "Reserve", "Withdraw", "Start", "ConnWrite", "WriteRet", "Deliver", "ReadFail", "ConnClose",
         "Close", "Cancel", "ExchangeEnd", "Stuck", "Bulk"}
-DROP_FIELDS = ("seq", "ms", "conn", "text", "len", "again", "byclose", "e", "cnt")
+DROP_FIELDS = ("seq", "ms", "conn", "text", "len", "again", "byclose", "e")
 
 FAULT_STEPS = ("ReadFail", "ExtClose", "WriteFail")
 
@@ -208,6 +208,43 @@ def validate(ctx, recs, cfg, what, max_reject=40, extra_sig=None):
     return out
 
 
+def script_from_trace(rec):
+    """A steering script that re-imposes the order actually observed in a recorded trace (used for replay files:
+    the order of a failing run, incl. 'the reader came back before the Write returned', is forced again)."""
+    sc = copy.deepcopy(rec["script"])
+    steps = []
+    for e in rec["trace"]:
+        ev = e["ev"]
+        if ev == "Reserve":
+            steps.append({"a": "Reserve", "c": e["c"], "o": e["o"]})
+        elif ev == "Withdraw":
+            steps.append({"a": "Withdraw", "c": e["c"]})
+        elif ev == "Start":
+            steps.append({"a": "Start", "c": e["c"]})
+        elif ev == "ConnWrite" and not e.get("dead"):
+            steps.append({"a": "Write", "c": e["c"]})
+        elif ev == "WriteRet":
+            steps.append({"a": "ArmWaiting" if e["ok"] else "WriteFail", "c": e["c"]})
+        elif ev == "ArmIdle":
+            steps += [{"a": "Dispatch"}, {"a": "ArmIdle"}]
+        elif ev == "Deliver":
+            steps.append({"a": "ReadMsg", "c": e["c"], "g": e["g"], "n": e["n"]})
+        elif ev == "ReadFail":
+            steps.append({"a": "ReadFail", "k": e.get("kind", "eof")})
+        elif ev == "ConnClose":
+            steps.append({"a": "ConnClose"})
+        elif ev == "Close":
+            steps.append({"a": "ExtClose"})
+        elif ev == "Cancel":
+            steps.append({"a": "Cancel", "c": e["c"]})
+        elif ev in ("ExchangeEnd", "Stuck"):
+            steps.append({"a": "Return", "c": e["c"]})
+        elif ev == "Bulk":
+            steps.append({"a": "Bulk", "cnt": e.get("cnt", 65535)})
+    sc["steps"], sc["random"], sc["probe"] = steps, None, False
+    return sc
+
+
 def report(ctx, recs, rejected):
     by_sig = {}
     for idx, sig, info in rejected:
@@ -218,7 +255,8 @@ def report(ctx, recs, rejected):
         ctx.violation(sig, "real trace of TraditionalDnsConn is not a behaviour of PipeConn.tla satisfying the property "
                            "(%d traces; first: script %s rejected at event %s: %s)" % (
                                len(lst), r["name"], info.get("line_in_trace"), json.dumps(info.get("event"))),
-                      {"script": r["script"], "trace": r["trace"], "driver": r.get("driver", "drv_pipeconn")})
+                      {"script": script_from_trace(r), "orig_script": r["script"], "trace": r["trace"],
+                       "driver": r.get("driver", "drv_pipeconn")})
     return by_sig
 
 
@@ -268,6 +306,8 @@ def replay(ctx, cfg):
     scripts = []
     for i in range(n):
         s = copy.deepcopy(sc)
+        if s.get("random") is None:
+            s.pop("random", None)
         s["name"] = "replay%d" % i
         scripts.append(s)
     recs = run_scripts(ctx, scripts, driver=d.get("driver", "drv_pipeconn"))
